@@ -322,6 +322,7 @@ namespace pika::split_detail {
                     // to the vector and the vector is not threadsafe in
                     // itself. The continuation will be called later
                     // when set_error/set_stopped/set_value is called.
+                    PIKA_VERIF_POINT("ss.add.store", this, 0, 0);
                     continuations.emplace_back([this, &receiver]() mutable {
                         pika::detail::visit(stopped_error_value_visitor<Receiver>{receiver}, v);
                     });
